@@ -177,6 +177,14 @@ impl Cx {
         if self.verbose || self.only.is_some() {
             println!("  violation [{sig}] unit={unit} sub={sub}: {detail}\n    case: {desc}");
         }
+        // debugging aid for triage: FV_ALL_VIOLATIONS=<file> lists every
+        // violating case, not only the first per signature
+        if let Ok(path) = std::env::var("FV_ALL_VIOLATIONS") {
+            use std::io::Write;
+            if let Ok(mut f) = std::fs::OpenOptions::new().create(true).append(true).open(path) {
+                let _ = writeln!(f, "{}", json!({"sig": sig, "unit": unit, "sub": sub, "case": desc, "detail": detail}));
+            }
+        }
         let e = self.violations.entry(sig.clone()).or_insert(Violation {
             sig,
             unit,
@@ -406,6 +414,17 @@ pub fn worker_main(check: &dyn Check, a: WorkerArgs) {
     let mut o = out.lock();
     writeln!(o, "DONE").unwrap();
     o.flush().unwrap();
+}
+
+/// Debug aid: runs one whole unit in this process, printing every violation
+pub fn run_unit_verbose(check: &dyn Check, tier: Tier, unit: usize) {
+    install_panic_hook();
+    let meta = check.meta(tier);
+    let mut cx = Cx::new(tier, meta.crash_policy);
+    cx.unit = unit as u64;
+    cx.verbose = true;
+    check.run_unit(tier, unit, &mut cx);
+    println!("unit {unit} ({}): counters {:?}", check.unit_label(tier, unit), cx.counters);
 }
 
 /// Replays a single case in this process.  Returns true if it violates.
